@@ -1962,6 +1962,10 @@ fn gen_typed(rec: &mut Rec, rng: &mut Rng, cases: u64) {
         &[0xa0], &[0xa1, b'a'], &[0xa2, b'a', b'b'], &[0x90], &[0x91, 0x01], &[0x92, 0x01, 0x02],
         &[0x93, 0x01, 0x02, 0x03], &[0x92, 0x01, 0xa1, b'x'], &[0x80], &[0x81, 0xa1, b'a', 0x01],
         &[0x81, 0xa1, b'a', 0xc0], &[0x82, 0xa1, b'a', 0x01, 0xa1, b'b', 0x91, 0xa1, b'z'],
+        // arrays whose bad element (fraction, out of range) is not the last one
+        &[0x92, 0xcb, 0x3f, 0xf8, 0, 0, 0, 0, 0, 0, 0x02], &[0x93, 0x01, 0xcb, 0x3f, 0xf8, 0, 0, 0, 0, 0, 0, 0x02],
+        &[0x92, 0xcf, 0xff, 0xff, 0xff, 0xff, 0xff, 0xff, 0xff, 0xff, 0x07], &[0x92, 0xd3, 0x80, 0, 0, 0, 0, 0, 0, 0, 0x01],
+        &[0x92, 0xcd, 0x01, 0x2c, 0x07], &[0x93, 0xff, 0x00, 0x01], &[0x92, 0xcb, 0x46, 0x29, 0x3e, 0x59, 0x39, 0xa0, 0x8c, 0xea, 0x01],
         // strings whose text is a number (a string is never an integer, whatever it spells)
         &[0xa2, b'4', b'2'], &[0xa3, b'+', b'1', b'0'], &[0xa3, b'0', b'0', b'7'], &[0xa1, b'0'], &[0xa2, b'-', b'1'],
         &[0xab, b'-', b'2', b'1', b'4', b'7', b'4', b'8', b'3', b'6', b'4', b'8'], &[0xa3, b'2', b'5', b'5'], &[0xa3, b'1', b'.', b'0'],
@@ -2071,6 +2075,31 @@ fn gen_intern(rec: &mut Rec, rng: &mut Rng, cases: u64) {
                     rec.op(&format!("{} {}", label, hex0(names[i - 1].as_bytes())));
                 }
             }
+        }
+    }
+    // an id written in one invocation and written again in later ones, after other output of various lengths: what
+    // the id writes never depends on where it was written before
+    for pre in [0usize, 1, 6, 7, 8, 40, 300] {
+        rec.case("c12");
+        rec.bump("id-written-again-in-later-invocation");
+        rec.op("init c0");
+        let a = rec.op(&format!("intern {}", hex0(b"title")));
+        let id = a.strip_prefix("id ").unwrap_or("0").to_string();
+        rec.op("w obj 1");
+        rec.op(&format!("w istr {}", id));
+        rec.op("w i32 1");
+        rec.op("w endobj");
+        rec.op("fin");
+        for round in 0..2 {
+            rec.op("init c0");
+            rec.op("w arr 4");
+            rec.op(&format!("w str {}", hex0(&vec![b'p'; pre + round])));
+            rec.op("w i32 7");
+            rec.op(&format!("w istr {}", id));
+            rec.op(&format!("w istr {}", id));
+            rec.op("w endarr");
+            rec.op("out?");
+            rec.op("fin");
         }
     }
     // handles on slices of one static string: the same start address names different strings
@@ -2592,6 +2621,19 @@ fn gen_threads(rec: &mut Rec, rng: &mut Rng, cases: u64, thorough: bool) {
         rec.case("c14");
         let obs = run_schedule(rec, &scripts, &[0, 1, 0, 1, 0, 0, 0, 1, 1, 1]);
         check_solo(rec, &scripts, &obs, "schedule A.internreq B.internreq A.interncopy");
+    }
+    // one thread performs a guest's documented first step (`init_panic_handler`), another thread's own code
+    // panics and recovers: that thread's log, output and copy plans are what they are without the first thread
+    {
+        let a = vec!["init c0".to_string(), "panicinit".to_string(), "log 5 1".to_string(), "logs?".to_string()];
+        let b = vec!["init c0".to_string(), "log 7 2".to_string(), "panicrecover".to_string(), "logs?".to_string(), "logreq 3".to_string(), "w null".to_string(), "fin".to_string(), "panicrecover".to_string(), "logs?".to_string()];
+        let scripts = vec![a, b];
+        for sched in [vec![0usize, 0, 1, 1, 1, 1, 1, 1, 1, 1, 1, 0, 0], vec![1, 1, 0, 0, 1, 1, 1, 1, 1, 1, 1, 0, 0], vec![0, 0, 0, 0, 1, 1, 1, 1, 1, 1, 1, 1, 1]] {
+            rec.case("c14");
+            rec.bump("panic-hook-across-threads");
+            let obs = run_schedule(rec, &scripts, &sched);
+            check_solo(rec, &scripts, &obs, "a recovered panic after another thread called init_panic_handler");
+        }
     }
     // long values (their length is not in the handle: every query goes back to the provider) held by A while
     // B starts invocations, reads, writes and interns in between
